@@ -193,7 +193,7 @@ func (c *Ctx) redisCommandCensus(r *redisRoles, rule string) {
 					queued = true
 				}
 			}
-			c.Decide(rule, f, cmd+" is issued by Delete only", in, queued || onlyFromDelete(f, 0),
+			c.Decide(rule, f, cmd+" is issued by Delete only", in, queued || onlyFromDelete(f, 0) || c.redisAtomicRemovalU(r, call),
 				"a command that removes a key is issued outside Delete (and outside a MULTI/EXEC pipeline): it removes by key whatever is stored when it arrives - a record another writer has just stored successfully disappears without a Delete in the history; an operation that is to drop a record it has examined must do both in one atomic step")
 		})
 	}
